@@ -1105,7 +1105,7 @@ fn main_random(args: &[String]) {
     let gmax = util::arg_u64(args, "gmax", 5);
     let mode = util::arg(args, "mode").unwrap_or("part".into());
     // "rstpart" / "rsthold" / "rstlat": the same scenarios with TCP probes (answered by an RST from
-    // inside Link::deliver_messages) mixed into the traffic; control calls from the Sim handle only
+    // inside Link::deliver_messages) mixed into the traffic
     let tcp = mode.starts_with("rst");
     let mode = mode.trim_start_matches("rst").to_string();
     let steps = util::arg_u64(args, "steps", 12);
@@ -1274,7 +1274,7 @@ fn main_random(args: &[String]) {
                         next_id += 1;
                         nsend += 1;
                     }
-                    if !tcp && !ops.is_empty() && rng.random_bool(0.1) {
+                    if !ops.is_empty() && rng.random_bool(0.1) {
                         let a = rng.random_range(1..=n);
                         let b = a % n + 1;
                         let op = ops[rng.random_range(0..ops.len())];
